@@ -7,7 +7,7 @@ from lib import gens
 from lib.runner import Stage, Violation, hyp_drive
 
 RULE = ("n in [0,2^64): all 65,536 values of each of the four 16-bit lanes with the other lanes all-0 and all-1 (524,288 "
-        "values, enumerated in both tiers), single bits, 2^k+-1, boundaries, valid cell ids of every shape, Hypothesis "
+        "values, enumerated in both tiers), single bits, 2^k+-1, boundaries, all 2- and 3-bit values, products of ~280 interesting 32-bit halves (2^k, 16^k, +-1, ones prefixes/suffixes, repeated nibbles), valid cell ids of every shape, Hypothesis "
         "integers, atheris on raw bytes (thorough); call sequences over a small pool mixing ints with equal-valued floats, negative ints and malformed strings (rejected requests must not affect later in-domain calls). Oracle: round-trip, regex ^(0|[1-9a-f][0-9a-f]*)$, equality with '%x' % n, "
         "upper-case and zero-padded parsing. Non-trivial = n >= 2^32 (the repository suite stops below); distinct by n.")
 ASSUMPTIONS = ["python's own '%x' formatting is the reference for canonical lower-case hexadecimal"]
@@ -62,6 +62,40 @@ def stage_special(ctx):
         vals.update({1 << k, (1 << k) - 1, ((1 << k) + 1) & ((1 << 64) - 1)})
     for n in sorted(vals):
         judge_n(n, ctx.col, cls="special")
+
+
+def stage_structured(ctx):
+    """Values built from interesting 32-bit halves (0, 1, 2^k, 2^k+-1, 16^k, 16^k+-1, ones prefixes/suffixes, repeated
+    nibbles) in both word positions, and every value with two or three bits set: implementations that format in words,
+    lanes or digits go wrong at such alignments, not at random values."""
+    M = 0xFFFFFFFF
+    I = {0, 1, M}
+    for k in range(32):
+        I.update({(1 << k) & M, ((1 << k) - 1) & M, ((1 << k) + 1) & M, (M >> k) & M, (M << k) & M})
+    for k in range(8):
+        I.update({16 ** k, (16 ** k - 1) & M, (16 ** k + 1) & M})
+    for d in range(1, 16):
+        I.add(0x11111111 * d)
+    I = sorted(I)
+    n = nt = 0
+    for a in I[ctx.shard::ctx.nshards]:
+        for b in I:
+            v = (a << 32) | b
+            judge_n(v, record=False)
+            n += 1
+            nt += v >= 1 << 32
+    if ctx.shard == 0:
+        for i in range(64):
+            for j in range(i):
+                judge_n((1 << i) | (1 << j), record=False)
+                n += 1
+                nt += i >= 32
+                for k in range(j):
+                    judge_n((1 << i) | (1 << j) | (1 << k), record=False)
+                    n += 1
+                    nt += i >= 32
+    ctx.col.bulk(n, nt, cls="structured_words_and_bits", sample={"n": (16 << 32) | 256})
+    ctx.col.exhaustive["interesting 32-bit halves squared; all 2- and 3-bit values"] = True
 
 
 def cases():
@@ -130,7 +164,8 @@ def stage_fuzz(ctx):
 
 
 def plan(tier):
-    st_ = [Stage("lanes", 8, stage_lanes, cost=5), Stage("special", 1, stage_special), Stage("hyp", 8, stage_hyp, cost=3), Stage("sequences", 4, stage_sequences, cost=2)]
+    st_ = [Stage("lanes", 8, stage_lanes, cost=5), Stage("special", 1, stage_special), Stage("hyp", 8, stage_hyp, cost=3), Stage("sequences", 4, stage_sequences, cost=2),
+           Stage("structured", 4, stage_structured, cost=3)]
     if tier == "thorough":
         st_.append(Stage("fuzz", 2, stage_fuzz, cost=5))
     return st_
